@@ -144,7 +144,13 @@ def run_impl(case):
         elif act[0] == "in":
             drv.deliver(act[1], act[2], act[3])
         else:
-            recs = drv.iterate(act[1], act[2], [tuple(x) for x in act[3]], table=act[4] if len(act) > 4 else ())
+            try:
+                recs = drv.iterate(act[1], act[2], [tuple(x) for x in act[3]], table=act[4] if len(act) > 4 else ())
+            except Exception as ex:      # noqa: the outgoing loop of the real component would end here, for good
+                trace.append(dict(act=act, recs=[], post=drv.state(), points=list(drv.last_trace), fired=[],
+                                  died="%s: %s" % (type(ex).__name__, ex)))
+                enc += [-999]
+                break
             pts = list(drv.last_trace)
         post = drv.state()
         enc += enc_recs(recs) + enc_state(post)
@@ -723,6 +729,9 @@ def run_scenario(sc, verbose=False):
         if w["kind"] == "msg" and w["err"] is not None:
             fails.append(("receiver-dropped-message", "a delivered message was dropped by the receiver: %s" % w["err"]))
             break
+    for (node, _i), err in getattr(net, "out_errors", {}).items():
+        fails.insert(0, ("outgoing-loop-died", "instance %d: %s escaped the outgoing iteration on a link failure: its outgoing "
+                                               "thread ends and nothing is sent to any peer any more" % (node, err)))
     emitted = sum(len(nd.emitted) for nd in net.nodes)
     msgs = sum(1 for w in net.wire if w["kind"] == "msg")
     kinds = {}
@@ -849,10 +858,15 @@ def run(ctx, res):
     cases = list(CORPUS) + list(grid_cases(ctx.quick))
     for _ in range(1500 if ctx.quick else 30000):
         cases.append(random_case(rng))
-    coq_cases = []
+    coq_cases, died_fails = [], []
     for case in cases:
         enc, trace = run_impl(case)
         coq_cases.append((coq_input(case, conv, fixed), enc))
+        if trace and trace[-1].get("died"):
+            died_fails.append(dict(signature="outgoing-loop-died",
+                                     what="a scripted link failure let %s escape the outgoing iteration: the outgoing thread ends, "
+                                          "nothing queued or backlogged is ever sent again" % trace[-1]["died"],
+                                     case=dict(case, acts=case["acts"][:len(trace)]), detail=None))
         fired = sum(len(s["fired"]) for s in trace)
         res.count("corr_peers_%d" % len(case["peers"]))
         res.count("corr_injections_fired", fired)
@@ -915,7 +929,8 @@ def run(ctx, res):
         small = shrink(f["case"], f["signature"])
         what = [w for s, w in run_scenario(small)["fails"] if s == f["signature"]]
         kept.append(dict(f, case=small, what=what[0] if what else f["what"]))
-    res.failures = sorted(kept, key=lambda f: sc_size(f["case"]))
+    died_fails.sort(key=lambda f: len(json.dumps(f["case"])))
+    res.failures = died_fails[:1] + sorted(kept, key=lambda f: sc_size(f["case"]))
     res.samples = [dict(correspondence_case=cases[0], impl=coq_cases[0][1]),
                    dict(oracle_scenario=scen[0], result=run_scenario(scen[0])["runs"])]
     res.exhaustive = True
@@ -951,6 +966,9 @@ def replay(obj):
     enc, trace = run_impl(case)
     for k, s in enumerate(trace):
         print("step %d %r" % (k, s["act"]))
+        if s.get("died"):
+            print("    PROPERTY FAILS [outgoing-loop-died] %s escaped the outgoing iteration" % s["died"])
+            return 1
         if s["points"]:
             print("    yield points passed: %s ; injections fired at: %s" % (s["points"], s["fired"]))
         for r in s["recs"]:
